@@ -52,6 +52,34 @@ type runner struct {
 	hits     map[string]int
 	withDrv  bool
 	nontriv  bool
+	alias    *aliasTracker
+	luModes  map[string]bool // which variant of ContractStorageLastUpdatedBlock the code showed (see compare)
+	probeLo  uint64          // first block number probed after every op (0 for ordinary scenarios)
+}
+
+// classifyApplyError maps an ApplyUpdate error to the model's rejection class by the wording of
+// juno's messages; "" when the wording is unknown (then only "an error" is compared, so that a
+// re-worded message is not a false alarm, while swapped checks still are a mismatch).
+func classifyApplyError(err error) string {
+	switch {
+	case errors.Is(err, preconfirmed.ErrBaseTxCountMismatch):
+		return "basetx"
+	case errors.Is(err, sn2core.ErrPreConfirmedIdentifierMismatch):
+		return "ident"
+	}
+	m := err.Error()
+	for _, c := range []struct{ sub, class string }{
+		{"bootstrap rejected", "bootstrap-variant"}, {"bootstrap block", "bootstrap-height"},
+		{"not aligned with expected", "unaligned"}, {"below the oldest pre-confirmed slot", "below-oldest"},
+		{"gap above tip", "gap"}, {"append rejected", "append-variant"}, {"delta at non-tip", "delta-nontip"},
+		{"no-change at non-tip", "nochange-nontip"}, {"unknown transaction type", "adapt"},
+		{"unsupported block version", "version"},
+	} {
+		if strings.Contains(m, c.sub) {
+			return c.class
+		}
+	}
+	return ""
 }
 
 func (r *runner) hit(s string) { r.hits[s]++ }
@@ -209,12 +237,33 @@ func (r *runner) checkLookups(op int, v *preconfirmed.ChainReader, b uint64, nf 
 	return txTok, rcTok
 }
 
+// probes: the block numbers looked at after every op: [0, maxNum], or, for a boundary scenario,
+// 0 and the 16 numbers from ProbeLo (up to 2^64-1).
+func (r *runner) probes() []uint64 {
+	var out []uint64
+	if r.probeLo == 0 {
+		for b := uint64(0); b <= maxNum; b++ {
+			out = append(out, b)
+		}
+		return out
+	}
+	out = append(out, 0)
+	for i := uint64(0); i < 16; i++ {
+		b := r.probeLo + i
+		if b < r.probeLo {
+			break // wrapped
+		}
+		out = append(out, b)
+	}
+	return out
+}
+
 // observe is run after every op: probe every b, validate, compare with the model, hold the
 // reader's snapshot, re-verify everything held so far.
 func (r *runner) observe(op int, kind string) {
 	widest := -1
 	var widestB uint64
-	for b := uint64(0); b <= maxNum; b++ {
+	for _, b := range r.probes() {
 		v := r.store.SnapshotForBlock(b)
 		r.checkView(op, &v, b)
 		if v.Length() > widest && v.Length() > 0 {
@@ -251,12 +300,13 @@ func (r *runner) observe(op int, kind string) {
 }
 
 func (r *runner) reverify(op int, kind string) {
+	memo := map[*pending.PreConfirmed]string{}
 	for i := range r.held {
 		h := &r.held[i]
 		if h.takenAt == op {
 			continue
 		}
-		if now := deepHash(&h.view); now != h.hash {
+		if now := deepHashMemo(&h.view, memo); now != h.hash {
 			r.violate(op, "held-snapshot-changed-by-"+kind,
 				fmt.Sprintf("view taken after op %d for block %d changed after op %d (%s): was %q now %q", h.takenAt, h.b, op, kind, clip(h.hash), clip(now)))
 			h.hash = now
@@ -284,6 +334,22 @@ func (r *runner) doApply(i int, o OpSpec) string {
 		return nil
 	})
 	kind := "apply-" + map[string]string{"B": "block", "D": "delta", "N": "nochange"}[o.U.Kind]
+	if o.U.Malform != "" && len(o.U.Txs) > 0 {
+		// an ill-formed update (lengths of transactions / receipts / diffs differ, nil elements): the
+		// model cannot express it; the writer must reject it with an error and leave the chain alone
+		// (the model is not told, so the snapshots compared after this op check "unchanged")
+		switch {
+		case panicked:
+			r.hit("malformed-update-panics")
+			r.violate(i, "applyupdate-panics-on-malformed-update",
+				fmt.Sprintf("ApplyUpdate with an update whose receipts / state diffs are %s panics in the writer: %v\n%s", o.U.Malform, err, clip(stack)))
+		case aerr == nil:
+			r.violate(i, "malformed-update-accepted", fmt.Sprintf("ApplyUpdate accepted an update with %s", o.U.Malform))
+		default:
+			r.hit("malformed-update-rejected")
+		}
+		return kind
+	}
 	if panicked {
 		r.violate(i, "applyupdate-panics", fmt.Sprintf("%v\n%s", err, clip(stack)))
 		r.ask(i, "exact", o.applyLine(), "panic")
@@ -293,10 +359,11 @@ func (r *runner) doApply(i int, o OpSpec) string {
 	switch {
 	case aerr != nil:
 		impl = "err"
-		if errors.Is(aerr, preconfirmed.ErrBaseTxCountMismatch) {
-			impl = "err:basetx"
-		} else if errors.Is(aerr, sn2core.ErrPreConfirmedIdentifierMismatch) {
-			impl = "err:ident"
+		if c := classifyApplyError(aerr); c != "" {
+			impl = "err:" + c
+			r.hit("apply-rejected-by-code:" + c)
+		} else {
+			r.hit("apply-rejected-by-code:unclassified")
 		}
 		r.hit("apply-" + o.U.Kind + "-err")
 	case aff == nil:
@@ -315,6 +382,11 @@ func (r *runner) doApply(i int, o OpSpec) string {
 		}
 		if !found {
 			r.violate(i, "affected-entry-not-in-chain", fmt.Sprintf("ApplyUpdate(%d) returned an entry that the chain does not hold", o.Num))
+		}
+		// aliasing of the real objects (what Alias.lean / Heap.lean predict): a published entry is a
+		// new object and every map of its block diff is a new map
+		if sig, what := r.alias.publish(aff); sig != "" {
+			r.violate(i, sig, what)
 		}
 	}
 	r.ask(i, "apply", o.applyLine(), impl)
@@ -366,6 +438,11 @@ func (r *runner) step(i int, o OpSpec) string {
 				sr, _, e = v.PreConfirmedStateBeforeIndexAt(o.Block, uint(o.Index), r.base.bc)
 			}
 			out = r.stateReads(sr, e)
+			if ps, ok := sr.(*pending.State); ok && e == nil {
+				if w := r.alias.stateDiffShares(ps.StateDiff()); w != "" {
+					r.violate(i, "state-diff-shares-a-map-with-a-published-entry", fmt.Sprintf("%s(%d): %s", o.Op, o.Block, w))
+				}
+			}
 			if e == nil && o.Op == "state" {
 				out += " " + readsLU(sr)
 				r.checkLastUpdated(i, &v, o.Head, o.Block, sr)
@@ -421,6 +498,9 @@ func (r *runner) setup() error {
 		return err
 	}
 	r.base = base
+	r.alias = newAliasTracker()
+	r.luModes = map[string]bool{}
+	r.probeLo = r.scn.ProbeLo
 	r.store = preconfirmed.NewChainStorage()
 	r.head = r.scn.Head
 	r.ask(-1, "exact", "reset", "ok")
